@@ -207,7 +207,62 @@ def c14_kw_part(rep, tier):
 
 def c02_table_part(rep, tier):
     hs = e1.list_harnesses('c02')
-    return e1_part(rep, 'C02', 'c02', hs, jobs=6,
+    return e1_part(rep, 'C02', 'c02', hs, jobs=4,
                    functions=['model/field.rs as_rust_type, split_type (compiled unmodified by #[path])'],
-                   bounds_text='every byte string of 1..19 printable ASCII bytes without ":" as a type name',
-                   per_harness_timeout=1500)
+                   bounds_text='every byte string of L printable ASCII bytes without ":" as a type name, for L in {1..9, 11, 12, 13, 15, 16, 18} (every length at which a builtin name exists, plus 1 and 2)',
+                   per_harness_timeout=3000)
+
+
+# ------------------------------------------------------------------------------------------------ C07(a): Kani on generated code
+GEN_CRATE = os.path.join(BUILD, 'kani_gen_crate')
+GEN_TARGET = os.path.join(BUILD, 'kani_gen_target')
+
+
+def c07_generated_part(rep, tier):
+    """generate code with the native zeep built from /repo, include it in a Kani crate, run the leaf harnesses"""
+    sys_path = os.path.join(VERIF, 'smi')
+    import sys
+    if sys_path not in sys.path:
+        sys.path.insert(0, sys_path)
+    import native
+    zeep = native.build_zeep()
+    src = os.path.join(GEN_CRATE, 'src')
+    os.makedirs(src, exist_ok=True)
+    fixture = os.path.join(VERIF, 'kani_gen/facets.xsd')
+    shutil.copyfile(fixture, os.path.join(GEN_CRATE, 'facets.xsd'))
+    rc, out, _ = native.run_zeep(zeep, os.path.join(GEN_CRATE, 'facets.xsd'), os.path.join(src, 'generated.rs'))
+    if rc != 0:
+        rep.inconc('C07(a): the native zeep fails on kani_gen/facets.xsd: ' + out[-400:])
+        return dict(evaluations=0, distinct_nontrivial=0)
+    toml = open(os.path.join(REPO, 'zeep-lib/Cargo.toml')).read()
+    deps = re.search(r'\[dependencies\](.*?)(\n\[|\Z)', toml, re.S).group(1)
+    keep = [l for l in deps.split('\n') if re.match(r'\s*(yaserde|yaserde_derive|xml-rs|log|reqwest|tokio)\b', l)]
+    cargo = '[package]\nname = "zeep-generated"\nversion = "0.1.0"\nedition = "2024"\n\n[workspace]\n\n[dependencies]\n%s\n\n[lints.rust]\nunexpected_cfgs = { level = "allow" }\n' % '\n'.join(keep)
+    e1._write_if_changed(os.path.join(GEN_CRATE, 'Cargo.toml'), cargo)
+    shutil.copyfile(os.path.join(REPO, 'Cargo.lock'), os.path.join(GEN_CRATE, 'Cargo.lock'))
+    shutil.copyfile(os.path.join(VERIF, 'kani_gen/harness.rs'), os.path.join(src, 'harness.rs'))
+    e1._write_if_changed(os.path.join(src, 'lib.rs'), '#![allow(unused, clippy::all)]\npub mod generated;\n#[cfg(kani)]\nmod harness;\n')
+    hs = re.findall(r'code_at!\((\w+),', open(os.path.join(VERIF, 'kani_gen/harness.rs')).read()) + \
+        re.findall(r'#\[kani::proof\](?:\s*#\[[^\]]*\])*\s*fn (\w+)\s*\(', open(os.path.join(VERIF, 'kani_gen/harness.rs')).read())
+    hs = [h for h in hs if not h.startswith('$')]
+    with Lock('kani_gen'):
+        res, out, rc, wall = e1.run_harnesses('harness', hs, jobs=5, timeout=7200, per_harness_timeout=1500, crate=GEN_CRATE, target=GEN_TARGET)
+    if 'error: could not compile' in out or 'error[E' in out:
+        rep.inconc('C07(a): the generated code / harness does not compile under Kani:\n' + '\n'.join(l for l in out.split('\n') if l.startswith('error'))[:1500])
+    samples = []
+    nontrivial = 0
+    for h in hs:
+        r = res[h]
+        samples.append(dict(harness=h, status=r['status'], solver_s=r['time'], cover_witnesses=r['covers'], cbmc_checks=r['checks']))
+        if r['status'] == 'SUCCESSFUL':
+            nontrivial += 1
+        elif r['status'] == 'FAILED' and r['failed'] and not r['unwind_fail']:
+            what = '; '.join(sorted(set(f.strip('"') for f in r['failed'])))
+            rdir = save_replay('C07', 'generated_' + h, {'finding.txt': 'Kani harness %s over the generated code fails: %s\n%s\n' % (h, what, r['raw'][-1500:]),
+                                                         'facets.xsd': open(fixture).read(), 'generated.rs': open(os.path.join(src, 'generated.rs')).read()})
+            rep.violation('c07-generated/%s/%s' % (re.sub(r'_len\d+$', '', h), what), '%s: %s' % (h, what), rdir)
+        else:
+            rep.inconc('C07(a) %s: %s (no verdict)' % (h, r['status']))
+    return dict(evaluations=len(hs), distinct_nontrivial=nontrivial, samples=samples, fixture='kani_gen/facets.xsd',
+                bounds='one symbolic leaf (ASCII string of a fixed length 1..4 / two digits) per harness at depth 1-2, inside Vec and Option members and as an attribute; all other leaves valid',
+                functions_encoded=['the check_restrictions impls zeep generates for facets.xsd + helpers_content.rs restrictions module, as emitted'])
